@@ -252,6 +252,20 @@ Definition create_request (base pattern : bytes) (ps : list (bytes * bytes)) (ca
     end
   end.
 
+(* ---------- client.New ---------- *)
+(* client.New keeps the text of the base path it is given (path part AND query string, byte for byte)
+   and only puts a slash in front of a text that does not begin with one *)
+Definition new_base_path (b : bytes) : bytes := if has_prefix [47] b then b else 47 :: b.
+
+(* the base path of the Runtime a request is built on: the argument of client.New (via_new), or a text
+   assigned to the exported field Runtime.BasePath afterwards *)
+Definition runtime_base (via_new : bool) (b : bytes) : bytes := if via_new then new_base_path b else b.
+
+(* the request of a client created with client.New(host, base, rs) *)
+Definition client_request (via_new : bool) (base pattern : bytes) (ps : list (bytes * bytes)) (caller : qmap)
+           (rs os : list bytes) (host : bytes) : outcome :=
+  create_request (runtime_base via_new base) pattern ps caller rs os host.
+
 (* ---------- several operations on one Runtime ---------- *)
 (* CreateHttpRequest reads the Runtime (host, base path, transport schemes) and the operation and keeps
    nothing from one call to the next: a history of operations built on one Runtime is the list of the
